@@ -44,7 +44,12 @@ FOREIGN = {
     "crc": ["00000000", "ffffffff"],
     "reserved": ["ffffffffffffffff", "0100000000000000"],
 }
-LIFE_TIMEOUT = 150.0
+LIFE_TIMEOUT = 150.0          # full 6,832-extractor list (20 s compile, 40 MB write)
+LIFE_TIMEOUT_SMALL = 40.0     # swarm lists (<= 400 extractors compile in < 1 s)
+
+
+def life_timeout(job):
+    return LIFE_TIMEOUT if job.get("ext") == "all" or job.get("kind") == "full" else LIFE_TIMEOUT_SMALL
 
 
 # --------------------------------------------------------------------------
@@ -167,6 +172,10 @@ def genuine(ext, text, s, e, groups):
 # child side: references and nodes
 # --------------------------------------------------------------------------
 
+class SimHang(BaseException):
+    """More than 15 simulated minutes of sleeping inside one lifetime."""
+
+
 def _tok_full(t):
     return ser.token_key(t) + (getattr(t, "_vx", -1),)
 
@@ -248,6 +257,23 @@ def node_run(arg):
 
     hyperscan.loadb = loadb
     seam.install()
+    # virtual time: sleeping costs nothing and advances the clocks the node reads;
+    # a lifetime that has slept for more than 15 simulated minutes without
+    # finishing is hung (a waiter whose peer died holding a lock, say)
+    vt = {"t": 0.0, "n": 0}
+    real_time, real_mono = time.time, time.monotonic
+
+    def vsleep(dt=0):
+        vt["t"] += max(0.0, float(dt))
+        vt["n"] += 1
+        if gate is not None:
+            gate(("sleep", vt["n"], round(float(dt), 3)))
+        if vt["t"] > 900.0 or vt["n"] > 200000:
+            raise SimHang()
+
+    time.sleep = vsleep
+    time.time = lambda: real_time() + vt["t"]
+    time.monotonic = lambda: real_mono() + vt["t"]
     ext_idx = step.get("ext_alt", job["ext"])
     if step.get("ext_perm") is not None and isinstance(ext_idx, list):
         # the same extractors in another order (a re-sorted copy of the list)
@@ -266,6 +292,8 @@ def node_run(arg):
                 out["tb"] = it.get("cand_tb") or it.get("cits_tb")
                 out["where"] = "tokenize"
                 break
+    except SimHang:
+        out.update(status="hang", slept_s=vt["t"], sleeps=vt["n"])
     except OSError as ex:
         if ex.errno == errno.ENOSPC and step.get("enospc") is not None:
             out["status"] = "enospc"
@@ -279,6 +307,7 @@ def node_run(arg):
                   for (k, name, rel, d) in seam.log]
     out["wbytes"] = seam.wbytes
     out["load"] = load_log
+    out["slept"] = (vt["n"], round(vt["t"], 3))
     if gate_fds is not None:
         os.write(gate_fds[0], (json.dumps(["done"]) + "\n").encode())
     return out
@@ -394,7 +423,11 @@ def apply_fault(D, f, target_name=None):
         return eff
     if not files:
         return eff
-    p = files[0]
+    t = int(f.get("target", 0))     # 0 = largest file (the database), 1 = next (a sidecar, lock, temp ...)
+    if t >= len(files):
+        return eff
+    p = files[t]
+    eff["target"] = t
     data = open(p, "rb").read()
     n = len(data)
     eff["len_before"] = n
@@ -577,6 +610,7 @@ def new_stats():
             "lifetimes": 0, "life_ok": 0, "life_crashed": 0, "life_enospc": 0,
             "crash_fired": Counter(), "faults": Counter(), "faults_effective": Counter(),
             "load_outcomes": Counter(), "recompiled": 0, "loaded": 0,
+            "virtual_sleeps": 0, "virtual_sleep_s": 0.0,
             "partial_read_observed": 0, "pairs": 0, "pair_steps": 0, "pair_inconclusive": 0,
             "states": [], "start_states": Counter()}
 
@@ -611,7 +645,7 @@ def exec_run(job):
             elif k == "life":
                 start = dir_state(D)
                 st["states"].append(start)
-                kind2, res = call(node_run, (job, step, D, None))
+                kind2, res = call(node_run, (job, step, D, None), life_timeout(job))
                 st["lifetimes"] += 1
                 judged = _judge_life(job, step, si, kind2, res, Bd, out, last_fault, start)
                 out["log"].append(["life", si, judged])
@@ -665,6 +699,13 @@ def _judge_life(job, step, si, kind, res, Bd, out, last_fault, start, who=None):
         st["recompiled"] += 1
     elif read:
         st["loaded"] += 1
+    if res.get("slept") and res["slept"][0]:
+        st["virtual_sleeps"] = st.get("virtual_sleeps", 0) + res["slept"][0]
+        st["virtual_sleep_s"] = st.get("virtual_sleep_s", 0) + res["slept"][1]
+    if res["status"] == "hang":
+        viol.append(dict(ctx, **{"class": "cache_hang", "slept_s": res.get("slept_s"),
+                                 "how": "slept more than 15 simulated minutes"}))
+        return "hang"
     if res["status"] == "enospc":
         st["life_enospc"] += 1
         return "enospc"
@@ -722,7 +763,7 @@ def _run_pair(job, step, si, D, Bd, out):
     def wait_msg(nd):
         # a released node either parks again or finishes
         while b"\n" not in nd["buf"]:
-            left = LIFE_TIMEOUT - (time.monotonic() - t0)
+            left = life_timeout(job) - (time.monotonic() - t0)
             if left <= 0:
                 return None
             r, _, _ = select.select([nd["st"]], [], [], min(left, 1.0))
@@ -783,7 +824,7 @@ def _run_pair(job, step, si, D, Bd, out):
                 os.kill(nd["pid"], signal.SIGKILL)
             except ProcessLookupError:
                 pass
-        kind, res = collect(nd["pid"], nd["rfd"], 30 if inconclusive else LIFE_TIMEOUT)
+        kind, res = collect(nd["pid"], nd["rfd"], 30 if inconclusive else life_timeout(job))
         try:
             os.close(nd["st"])
         except OSError:
@@ -861,7 +902,18 @@ class RunGen:
             parts.append(tg.words(g.randrange(1, 5)) + " ")
         for i in range(n_items):
             fr = frags[g.randrange(len(frags))] if frags and g.random() < 0.85 else None
-            if fr is not None and g.random() < 0.5:
+            y = g.random()
+            if y < 0.08:
+                # special tokens in every letter case (case-insensitive patterns)
+                w = g.choice(["id.", "ibid.", "supra", "see", "citing", "v.", "aff'd", "denied"])
+                item = g.choice([w.upper(), w.capitalize(), w, w.swapcase()])
+                if g.random() < 0.5:
+                    item += g.choice([",", " at 5", ", at 12-13", " §5"])
+                classes["special-case-variant"] += 1
+            elif y < 0.11:
+                item = "".join(mb[g.randrange(len(mb))] for _ in range(g.choice([8, 40, 200])))
+                classes["long-multibyte-run"] += 1
+            elif fr is not None and g.random() < 0.5:
                 item = tg.core(fr)          # the bare token, boundaries decided below
             elif fr is not None:
                 item = tg.cite(fr)
@@ -936,6 +988,12 @@ class RunGen:
         return {"wbytes": max(0, n)}
 
     def fault(self, g):
+        f = self._fault(g)
+        if f["f"] not in ("rm_dir", "empty_dir") and g.random() < 0.25:
+            f["target"] = g.choice([1, 1, 2])
+        return f
+
+    def _fault(self, g):
         x = g.random()
         if x < 0.22:
             at = g.choice(LEN_CLASSES) if g.random() < 0.7 else ["frac", round(g.random(), 4)]
@@ -1088,6 +1146,36 @@ class RunGen:
                          "cell": f"foreign-{fname}", "ext": ext, "chunk": 65536, "texts": texts, "classes": {},
                          "steps": [{"k": "life"}, dict(fstep, k="life"), {"k": "life"},
                                    dict(fstep, k="life"), {"k": "life"}]})
+        # files other than the database (sidecars, manifests, lock or temp files a
+        # future implementation may keep): every damage class on the 2nd and 3rd file
+        for tgt in (1, 2):
+            small = [{"f": "truncate", "at": ["abs", 0]}, {"f": "truncate", "at": ["abs", 1]},
+                     {"f": "truncate", "at": ["frac", 0.5]}, {"f": "truncate", "at": ["end", -1]},
+                     {"f": "zeros"}, {"f": "lose_file"},
+                     {"f": "garbage", "len": 1, "seed": 1}, {"f": "garbage", "len": 64, "seed": 2},
+                     {"f": "garbage", "len": 4096, "seed": 3},
+                     {"f": "append", "len": 1, "seed": 4}, {"f": "append", "len": 16, "seed": 5}]
+            for off in (["abs", 0], ["abs", 1], ["frac", 0.5], ["end", -1]):
+                for bit in (0, 7):
+                    small.append({"f": "flip", "off": off, "bit": bit})
+                small.append({"f": "byte", "off": off, "value": 0xFF})
+                small.append({"f": "byte", "off": off, "value": 0x00})
+            for ci, cell in enumerate(small):
+                jobs.append({"seed": seeds.h64(root, "grid-other", tgt, ci), "kind": "grid",
+                             "cell": f"file{tgt}-{ci}", "ext": ext, "chunk": 65536, "texts": texts,
+                             "classes": {},
+                             "steps": [{"k": "life"}, dict(cell, k="fault", target=tgt), {"k": "life"}, {"k": "life"}]})
+        # two processes starting together: on an absent directory, on a damaged
+        # cache, after a crashed writer; several interleavings each
+        for si in range(6):
+            for nm, pre in (("empty", []), ("truncated", [{"k": "life"}, {"k": "fault", "f": "truncate", "at": ["frac", 0.5]}]),
+                            ("after-crash", [{"k": "life", "crash": {"wbytes": 4096}}]),
+                            ("after-crash-op", [{"k": "life", "crash": {"op": 3 + si % 4, "when": "after"}}])):
+                jobs.append({"seed": seeds.h64(root, "grid-pair", nm, si), "kind": "grid",
+                             "cell": f"pair-{nm}-{si}", "ext": ext, "chunk": [512, 4096, 65536][si % 3],
+                             "texts": texts, "classes": {},
+                             "steps": pre + [{"k": "pair", "sched_seed": seeds.h64(root, "pairseed", nm, si) % (1 << 30), "life": {}},
+                                             {"k": "life"}, {"k": "life"}]})
         for n in (0, 1, 32, 4096, 100000):
             jobs.append({"seed": seeds.h64(root, "grid-enospc", n), "kind": "grid",
                          "cell": f"enospc-{n}", "ext": ext, "chunk": 4096, "texts": texts, "classes": {},
@@ -1309,6 +1397,8 @@ class Checker:
                 "concurrent_release_steps": t["pair_steps"],
                 "concurrent_inconclusive": t["pair_inconclusive"],
                 "reader_observed_partial_write": t["partial_read_observed"],
+                "virtual_sleep_calls": t["virtual_sleeps"],
+                "virtual_seconds_slept": round(t["virtual_sleep_s"], 1),
             },
             "load_outcomes": dict(sorted(t["load_outcomes"].items())),
             "lifetimes_that_recompiled_and_wrote": t["recompiled"],
@@ -1323,7 +1413,7 @@ class Checker:
                 "excused_out_of_domain": t["out_of_domain"],
                 "multibyte_adjacency_classes": dict(sorted(self.classes.items())),
             },
-            "simulated_time": "not applicable: no timer or deadline in the library; logical steps (storage operations, write chunks, lifetimes) are reported",
+            "simulated_time": "the library has no timer or deadline on this tree; time.sleep/time.time/time.monotonic inside a lifetime are virtual (sleeping is free, a lifetime that sleeps > 900 simulated seconds is reported as hung); logical steps (storage operations, write chunks, lifetimes) are reported",
             "components": {"real": ["eyecite", "re", "libhyperscan (compile, dumpb, loadb, scan)",
                                     "kernel filesystem under /dev/shm", "process fork/exit"],
                            "simulated": ["instant of process death", "bytes of a write that reached the file",
